@@ -344,6 +344,45 @@ func TestC10SyncReplies(t *testing.T) {
 			bad2 = world.SignReply(bad2, w.srvKey)
 			try(bad2.Encode(), nil, "migration-order-for-other-device", "gca-signature")
 		}
+		// a migration order forged by the contacted server itself (it signs the
+		// reply, but it is not the GCA): new GCA of its choosing, servers signed by
+		// that key, and an order signature that is blank, constant, random or made
+		// with a key other than the current GCA's
+		{
+			r, _ := ref.DecodeSyncReply(raw)
+			rogue := keyFor("c10-rogue-gca")
+			forged := r
+			forged.NewGCA = rogue.Pub
+			forged.NewShortID = drawU32(t, "forgedID")
+			forged.Servers = nil
+			for i, n := 0, rapid.IntRange(0, 2).Draw(t, "forgedServers"); i < n; i++ {
+				e := ref.AuthServer{PublicKey: keyFor(fmt.Sprintf("c10-rogue-srv-%d", i)).Pub, Location: "127.0.0.1", HttpPort: 1, TcpPort: 1, UdpPort: 9}
+				e.Sig = ref.Sign(rogue, e.SigningBytes())
+				forged.Servers = append(forged.Servers, e)
+			}
+			m := ref.Migration{Equipment: r.DeviceKey, NewGCA: forged.NewGCA, NewShortID: forged.NewShortID, NewServers: forged.Servers}
+			sigKind := rapid.SampledFrom([]string{"blank", "blank", "ones", "random", "by-new-gca", "by-server", "by-device", "stale-genuine"}).Draw(t, "forgedSig")
+			switch sigKind {
+			case "blank":
+				forged.GCASig = [64]byte{}
+			case "ones":
+				for i := range forged.GCASig {
+					forged.GCASig[i] = 0xff
+				}
+			case "random":
+				forged.GCASig = draw64(t, "forgedSigBytes")
+			case "by-new-gca":
+				forged.GCASig = ref.Sign(rogue, m.SigningBytes())
+			case "by-server":
+				forged.GCASig = ref.Sign(w.srvKey, m.SigningBytes())
+			case "by-device":
+				forged.GCASig = ref.Sign(cw.devKey, m.SigningBytes())
+			default:
+				forged.GCASig = r.GCASig // whatever the genuine reply carried (blank, or an order for other content)
+			}
+			forged = world.SignReply(forged, w.srvKey)
+			try(forged.Encode(), nil, "migration-forged-by-server-"+sigKind, "gca-signature")
+		}
 		// ---- a full sync round against a rejected reply changes nothing ----
 		beforeFiles := cw.clientFiles()
 		before := c.VerifState()
